@@ -20,6 +20,30 @@ import (
 
 var nilTree = T{"nil", ""}
 
+// OutDir: the driver's output directory (tickfmt binary and its work files live there).
+var OutDir string
+
+// histWanted: the multi-step API histories and the tickfmt subprocesses cost ~30 requests /
+// 6 processes per script: every literal and hand-written item, every third line-ending,
+// every eighth member-sweep and every fifth random one.
+func histWanted(it item) bool {
+	switch it.Cls {
+	case "lit", "hand":
+		return true
+	case "eol":
+		return len(it.Src)%3 == 0
+	case "member":
+		return len(it.Src)%8 == 0
+	default:
+		return len(it.Src)%5 == 0
+	}
+}
+
+// apiHistWanted: the histories (about 30 requests, each compiling the task) on half of those.
+func apiHistWanted(it item) bool {
+	return histWanted(it) && (it.Cls == "hand" || len(it.Src)%2 == 0)
+}
+
 var (
 	apiOnce sync.Once
 	apiW    *apiWorld
@@ -364,6 +388,29 @@ func evalScript(it item) *outcome {
 	if a := ln["api"].(rt.M); a["code"] == 200 {
 		if S(a["t"].(T)) != S(t0) || S(a["lt"].(T)) != S(t0) || a["raw"] != true {
 			o.dev("api:script", fmt.Sprint(a["ferr"]))
+		}
+	}
+
+	// ---- histories on one id through the HTTP API, and the tickfmt tool on files
+	ln["hist"], ln["tf"] = []any{}, []any{}
+	if a := ln["api"].(rt.M); a["code"] == 200 && apiHistWanted(it) {
+		ln["hist"] = theAPI().history(it)
+		for _, st := range ln["hist"].([]any) {
+			for _, ob := range st.(rt.M)["obs"].([]any) {
+				m := ob.(rt.M)
+				if m["f"] != m["r"] || m["l"] != m["r"] || m["r"] != m["exp"] || m["rawis"] != true {
+					o.dev("api:history:"+st.(rt.M)["step"].(string)+":"+m["who"].(string), fmt.Sprint(m))
+				}
+			}
+		}
+	}
+	if OutDir != "" && histWanted(it) {
+		ln["tf"] = tickfmtStage(OutDir, it)
+		for _, cs := range ln["tf"].([]any) {
+			m := cs.(rt.M)
+			if m["rcw"] != 0 || m["rcout"] != 0 || m["st"] != m["t"] || m["wt"] != m["t"] || m["wsame"] != true || m["bak"] != true || m["untouched"] != true {
+				o.dev("tickfmt:"+m["v"].(string)+":"+m["size"].(string), fmt.Sprint(m))
+			}
 		}
 	}
 
